@@ -34,7 +34,10 @@ Definition same_boundary (a b : vis) : bool :=
 Section CK.
 Variables (bottom versioning : bool) (retention now : N) (snaps : list N).
 
-Fixpoint ck_go (latest_del_bottom has_rep : bool) (i : nat) (newer : option vis) (l : list ver) : list ver :=
+(* one pass newest -> oldest: the keep/drop decision of every version.
+   barrier = a newer REPLACE has been passed *)
+Fixpoint ck_decide (latest_del_bottom : bool) (i : nat) (newer : option vis) (barrier : bool) (l : list ver)
+  : list (ver * bool) :=
   match l with
   | [] => []
   | v :: r =>
@@ -43,8 +46,8 @@ Fixpoint ck_go (latest_del_bottom has_rep : bool) (i : nat) (newer : option vis)
     let superseded :=
       match newer with
       | Some nv =>
-        let allows := match cur with NoSnap => negb versioning | _ => true end in
-        allows && negb is_latest && same_boundary nv cur
+        let outside_retention := (0 <? retention) && (retention <? (now - vts v)) in
+        (negb versioning || outside_retention) && negb is_latest && same_boundary nv cur
       | None => false
       end in
     let required := negb superseded && match cur with Bounded _ => true | _ => false end in
@@ -59,7 +62,7 @@ Fixpoint ck_go (latest_del_bottom has_rep : bool) (i : nat) (newer : option vis)
       else if is_latest && hard && negb bottom then false
       else if is_latest && rep then false
       else if hard then true
-      else if has_rep && negb rep then true
+      else if barrier then true
       else if negb versioning then true
       else if 0 <? retention then (retention <? (now - vts v)) else false in
     let output :=
@@ -68,8 +71,15 @@ Fixpoint ck_go (latest_del_bottom has_rep : bool) (i : nat) (newer : option vis)
       else if stale then false
       else if versioning || required then true
       else is_latest in
-    (if output then [v] else []) ++ ck_go latest_del_bottom has_rep (S i) (Some cur) r
+    (v, output) :: ck_decide latest_del_bottom (S i) (Some cur) (barrier || rep) r
   end.
+
+(* with versioning a dropped barrier (hard delete / replace) is restored when an older version is kept *)
+Definition ck_fixup (ds : list (ver * bool)) : list (ver * bool) :=
+  snd (fold_right (fun d st =>
+         let '(older_kept, acc) := st in
+         let k := snd d || (older_kept && (is_hard (vkind (fst d)) || is_rep (vkind (fst d)))) in
+         (older_kept || k, (fst d, k) :: acc)) (false, []) ds).
 
 (* vs: the versions of one key, newest first (seq descending, distinct) — what the code has after
    its sort + dedup *)
@@ -80,8 +90,8 @@ Definition compact_key (vs : list ver) : list ver :=
                 match snaps with [] => true | oldest :: _ => vseq v <=? oldest end
     | [] => false
     end in
-  let has_rep := existsb (fun v => is_rep (vkind v)) vs in
-  ck_go latest_del_bottom has_rep 0 None vs.
+  let ds := ck_decide latest_del_bottom 0 None false vs in
+  map fst (filter snd (if versioning then ck_fixup ds else ds)).
 End CK.
 
 (* insertion sort by seq descending + dedup of equal seqs, as process_accumulated_versions does *)
